@@ -439,11 +439,25 @@ def rule_E(run, prog, cls):
                        message="apply must contract the stored tensor at the located index with the "
                                "state: sum_cd U[a,b,c,d] rho[c,d]", loc=f.loc(c), sample={"call": norm(c)})
     st = [norm(s) for s in ast.walk(f.node) if isinstance(s, ast.stmt)]
-    ok = "ti, dt = self.time.locate(time)" in st and \
-        "oper_ven.data = numpy.tensordot(self.data[ti, :, :, :, :], target.data)" in st
+
+    def grid_index(fn_, tparam):
+        """(name, how) of the index that selects the stored time slice: it must be the grid point of the object's
+        own time axis *nearest* to the requested time.  locate() gives the lower neighbour and the remaining
+        distance; used without the distance it returns the previous point for grid times that round down."""
+        for n_ in walk_no_nested(fn_.node):
+            if isinstance(n_, ast.Assign) and isinstance(n_.value, ast.Call) and isinstance(n_.value.func, ast.Attribute) \
+                    and norm(n_.value.func.value) == "self.time" and [norm(a_) for a_ in n_.value.args] == [tparam]:
+                tg = n_.targets[0]
+                nm = tg.id if isinstance(tg, ast.Name) else (tg.elts[0].id if isinstance(tg, ast.Tuple) else None)
+                return nm, n_.value.func.attr, n_
+        return None, None, None
+    tpar = f.node.args.args[1].arg
+    ix, how, node_ = grid_index(f, tpar)
+    ok = ix is not None and how == "nearest" and \
+        ("oper_ven.data = numpy.tensordot(self.data[%s, :, :, :, :], target.data)" % ix) in st
     run.obligation(rid, "EvolutionSuperOperator.apply", ok, key="located-index",
-                   message="single-time apply must use the index located on the superoperator's own "
-                           "time axis", loc=f.loc())
+                   message="single-time apply must contract the slice at the grid point of the superoperator's own time "
+                           "axis nearest to the requested time (found: index from self.time.%s)" % how, loc=f.loc(node_) if node_ is not None else f.loc())
     g = cls.methods["at"]
     st = [norm(s) for s in ast.walk(g.node) if isinstance(s, ast.stmt)]
     rets = [n for n in walk_no_nested(g.node) if isinstance(n, ast.Return) and isinstance(n.value, ast.Call)
@@ -458,9 +472,11 @@ def rule_E(run, prog, cls):
             return e.args[0], True
         return e, False
     cores = [_core(e) for e in srcs]
-    ok = "ti, dt = self.time.locate(time)" in st and any(norm(c_) == "self.data[ti, :, :, :, :]" for c_, _ in cores)
+    ix2, how2, node2 = grid_index(g, g.node.args.args[1].arg)
+    ok = ix2 is not None and how2 == "nearest" and any(norm(c_) == "self.data[%s, :, :, :, :]" % ix2 for c_, _ in cores)
     run.obligation(rid, "EvolutionSuperOperator.at", ok, key="located-slice",
-                   message="at(time) must return the slice at the located index", loc=g.loc())
+                   message="at(time) must return the slice at the grid point nearest to the requested time (found: index "
+                           "from self.time.%s)" % how2, loc=g.loc(node2) if node2 is not None else g.loc())
     # the object handed out is basis managed and transformed in place: it must own its data, a view of the stored
     # array would carry every later transformation of the returned object into the stored values
     shared = [norm(e) for (c_, owned), e in zip(cores, srcs) if not owned and "self.data" in norm(c_)]
